@@ -65,6 +65,17 @@ def jspec (env : Env) (base : Val) (keys : List String) (e : String → Rat) : J
     ("u", jarr (fun (p : String × Rat) => Json.arr #[jstr p.1, jint p.2.num, jnat p.2.den]) us),
     ("dims", jarr jrat (specDimVec env all))]
 
+/-- `jspec` plus the clause of C08 that applies to the absolute error *in base dimensions*
+    (`err·factor(units)`): the per-clause rule of `Drive/C08.specRule` evaluated on the operands'
+    base-dimension magnitudes (unit factors are exact positive numbers, so sum rule, scaling and
+    first-order bound carry over unchanged). -/
+def withErr (spec : Json) (rule : Json) : Json := spec.setObjVal! "err" rule
+
+def errRule1 (m : Mag Val) : Json :=
+  match m.error with
+  | none => ruleExact
+  | some e => ruleEq e
+
 def dimVecOf (env : Env) (b : BU String) : List Rat :=
   specDimVec env (b.map (fun p => (p.1, p.2.toRat)))
 
@@ -78,15 +89,21 @@ def handleQ (j : Json) : Except String Json := do
   | "state" =>
     -- the operand itself: text, dims and base value of a constructed quantity
     pure (Json.mkObj [("model", jqty env l), ("spec", jspec env bl kl l.units.expOf)])
+  | "new" =>
+    -- `Quantity(value, units, abse)` : the constructor (folds the units if the dimensions vanish)
+    pure (Json.mkObj [("model", jqty env (Qty.new env l.mag (BU.new l.units))),
+      ("spec", withErr (jspec env bl kl l.units.expOf) (errRule1 (l.baseMag env)))])
   | "neg" =>
-    pure (Json.mkObj [("model", jqty env (l.neg env)), ("spec", jspec env (-bl) kl l.units.expOf)])
+    pure (Json.mkObj [("model", jqty env (l.neg env)),
+      ("spec", withErr (jspec env (-bl) kl l.units.expOf) (errRule1 (l.baseMag env)))])
   | "pow" => do
     let pj ← getList (← field j "p")
     let p ← match pj with
       | [n, d] => getFrac n d
       | _ => throw "bad p"
     let spec := if p.den = 0 then jstr "err"
-      else jspec env (rpow bl p.toRat) kl (fun u => l.units.expOf u * p.toRat)
+      else withErr (jspec env (rpow bl p.toRat) kl (fun u => l.units.expOf u * p.toRat))
+        (match l.mag.error with | none => ruleExact | some _ => ruleNonneg)
     pure (Json.mkObj [("model", jexc (jqty env) (l.pow env p)), ("spec", spec)])
   | "to" => do
     let t ← getBU (← field j "t")
@@ -103,15 +120,16 @@ def handleQ (j : Json) : Except String Json := do
     let kr := r.units.map Prod.fst
     let br := r.base env
     let same := dimVecOf env l.units == dimVecOf env r.units
+    let rule := specRule op (l.baseMag env) (r.baseMag env)
     match op with
     | "add" => pure (Json.mkObj [("model", jexc (jqty env) (l.add env r)),
-        ("spec", if same then jspec env (bl + br) kl l.units.expOf else jstr "err")])
+        ("spec", if same then withErr (jspec env (bl + br) kl l.units.expOf) rule else jstr "err")])
     | "sub" => pure (Json.mkObj [("model", jexc (jqty env) (l.sub env r)),
-        ("spec", if same then jspec env (bl - br) kl l.units.expOf else jstr "err")])
+        ("spec", if same then withErr (jspec env (bl - br) kl l.units.expOf) rule else jstr "err")])
     | "mul" => pure (Json.mkObj [("model", jqty env (l.mul env r)),
-        ("spec", jspec env (bl * br) (kl ++ kr) (fun u => l.units.expOf u + r.units.expOf u))])
+        ("spec", withErr (jspec env (bl * br) (kl ++ kr) (fun u => l.units.expOf u + r.units.expOf u)) rule)])
     | "div" => pure (Json.mkObj [("model", jqty env (l.div env r)),
-        ("spec", jspec env (bl / br) (kl ++ kr) (fun u => l.units.expOf u - r.units.expOf u))])
+        ("spec", withErr (jspec env (bl / br) (kl ++ kr) (fun u => l.units.expOf u - r.units.expOf u)) rule)])
     | _ => throw s!"C06: unknown op {op}"
 
 def handle (j : Json) : Except String Json := do
